@@ -107,6 +107,30 @@ class C11(core.Prop):
                         t = copy.deepcopy(base)
                         t['rings'] = [[els[i], els[j], 'd', 's']]
                         out.append({'g': t, 'base': base, 'names': names, 'aa': aa, 'syms': syms, 'virt': [], 'zero_ring': True})
+                # ... and the zero-order ring bond opened on a node that opens a real ring bond right after it ('.12')
+                if nreal >= 3 and len(base['rings']) == 1:
+                    a, b = base['rings'][0][0], base['rings'][0][1]
+                    els = [e['v'] for e in gg.elems(base['chain'])]
+                    dummy = {'name': {str(v): 'X' for v in els}, 'ann': {}, 'ord': {}, 'rord': [None], 'rmark': ['1']}
+                    _n, ed = gg.denote(base, dummy)
+                    idx = {v: i for i, v in enumerate(els)}
+                    others = [v for v in els if v not in (a, b) and frozenset((idx[a], idx[v])) not in ed]
+                    for c in others[:1]:
+                        t = copy.deepcopy(base)
+                        t['rings'] = [[a, c, 'd', 's'], [a, b, 'd', 'n']]
+                        out.append({'g': t, 'base': base, 'names': names, 'aa': aa, 'syms': syms, 'virt': [], 'zero_ring': True, 'zero_first': True})
+        # a four-node chain whose first node opens a zero-order ring bond and, right after it, a real one ('.12')
+        for aa in (True, False):
+            ch = copy.deepcopy([t_ for t_ in gg.tree_shapes(4, max_nest=1) if len(t_['chain']) == 4][0])
+            ch.pop('parent', None)
+            els = [e['v'] for e in gg.elems(ch['chain'])]
+            if len(ch['chain']) == 4:
+                base4 = copy.deepcopy(ch)
+                base4['rings'] = [[els[0], els[2], 'd', 'n']]
+                t = copy.deepcopy(ch)
+                t['rings'] = [[els[0], els[3], 'd', 's'], [els[0], els[2], 'd', 'n']]
+                out.append({'g': t, 'base': base4, 'names': ['A', 'B', 'A', 'B'], 'aa': aa, 'syms': syms, 'virt': [], 'zero_ring': True,
+                            'zero_first': True})
         # the same strings handed over as a base graph (MoleculeResolver.from_graph); every third shape
         for s in list(out)[::3]:
             out.append(dict(s, entry='graph'))
@@ -166,7 +190,7 @@ class C11(core.Prop):
         if ref[0] != 'ok':
             return cl
         if shape.get('zero_ring'):
-            ro = gg.sym2ord(inp['holes']['rord'][-1])
+            ro = gg.sym2ord(inp['holes']['rord'][0 if shape.get('zero_first') else -1])
             if ro != 0:             # forks; only the zero-order ring bond is the subject here
                 raise symx.PathAbort()
         if nonzero:                 # forks over the order symbols
